@@ -3,11 +3,52 @@ from props import RULE_SET, only  # noqa: F401
 import os, re
 
 
+# normalised text (comments stripped, whitespace collapsed) of the 16 unsafe blocks the theorems are stated for
+MODELLED_UNSAFE_BLOCKS = [
+    ["bitmap/inherent.rs", "unsafe { self.containers.get_unchecked(i) }"],
+    ["bitmap/store/array_store/mod.rs", "unsafe { *slice.get_unchecked_mut(pos) = val }"],
+] + [["bitmap/store/array_store/scalar.rs", "unsafe { lhs.get_unchecked(i) }"]] * 4 + [
+    ["bitmap/store/array_store/scalar.rs", "unsafe { rhs.get_unchecked(j) }"]] * 4 + [
+    ["bitmap/store/bitmap_store.rs", "unsafe { *bits.get_unchecked(new_key as usize) }"],
+    ["bitmap/store/bitmap_store.rs", "unsafe { *bits.get_unchecked(new_key as usize) }"],
+    ["bitmap/store/bitmap_store.rs", "unsafe { *self.bits.borrow().get_unchecked(key as usize) }"],
+    ["bitmap/store/bitmap_store.rs", "unsafe { *self.bits.borrow().get_unchecked(self.key_back as usize) }"],
+    ["bitmap/store/bitmap_store.rs", "unsafe { bytes.as_ptr().cast::<[u64; BITMAP_LENGTH]>().read_unaligned() }"],
+    ["bitmap/store/bitmap_store.rs", "unsafe { core::slice::from_raw_parts_mut(bits.as_mut_ptr().cast::<u8>(), BITMAP_BYTES) }"],
+]
+
+
+def unsafe_blocks(root):
+    out = []
+    for d, _, files in os.walk(root):
+        for f in sorted(files):
+            if not f.endswith(".rs") or f in ("vector.rs", "verif_hooks.rs"):
+                continue
+            path = os.path.join(d, f)
+            code = "\n".join(ln.split("//")[0] for ln in open(path).read().split("\n"))
+            for m in re.finditer(r"\bunsafe\b", code):
+                i = code.find("{", m.end())
+                if i < 0:
+                    continue
+                depth, j = 0, i
+                while j < len(code):
+                    if code[j] == "{":
+                        depth += 1
+                    elif code[j] == "}":
+                        depth -= 1
+                        if depth == 0:
+                            break
+                    j += 1
+                out.append([os.path.relpath(path, root), re.sub(r"\s+", " ", code[m.start():j + 1]).strip()])
+    return sorted(out)
+
+
 def unsafe_sites_audit():
     """Every `unsafe` block of the (non-simd) crate source must be one of the modelled sites, i.e. be preceded by a
     `verif_hooks::site(..)` recorder within the few lines above it. A new or un-instrumented unsafe site means the
     bounds theorems and the recorders no longer cover the code: reported as a proof-obligation failure."""
-    root = "/repo/roaring/src"
+    repo = os.environ.get("VERIF_REPO", "/repo")  # VERIF_REPO: development aid of bin/check
+    root = os.path.join(repo, "roaring/src")
     problems = []
     n_sites = 0
     for d, _, files in os.walk(root):
@@ -22,7 +63,19 @@ def unsafe_sites_audit():
                     n_sites += 1
                     window = "\n".join(lines[max(0, i - 8):i + 1])
                     if "verif_hooks::site(" not in window:
-                        problems.append("unsafe code without a bounds recorder at %s:%d: %s" % (os.path.relpath(path, "/repo"), i + 1, ln.strip()[:80]))
+                        problems.append("unsafe code without a bounds recorder at %s:%d: %s" % (os.path.relpath(path, repo), i + 1, ln.strip()[:80]))
+    # the text of every unsafe block is part of what the bounds theorems (Unsafe.lean / UnsafeIter.lean) model: a block
+    # that reads differently (another accessor, a reference instead of an unaligned read, another cast) is no longer
+    # the modelled access, whatever its index
+    got = unsafe_blocks(root)
+    want = sorted(MODELLED_UNSAFE_BLOCKS)
+    if got != want:
+        for b in got:
+            if b not in want or got.count(b) > want.count(b):
+                problems.append("unsafe block differs from the modelled one in %s: %s" % (b[0], b[1][:160]))
+        for b in want:
+            if b not in got or want.count(b) > got.count(b):
+                problems.append("modelled unsafe block no longer present in %s: %s" % (b[0], b[1][:160]))
     if n_sites != 16:
         problems.append("expected 16 unsafe sites in the non-simd source (the ones modelled in Unsafe.lean / UnsafeIter.lean), found %d" % n_sites)
     return problems
@@ -30,8 +83,8 @@ def unsafe_sites_audit():
 
 CFG = {
     "extra_audit": unsafe_sites_audit,
-    "gen_profiles": ["C15"],
-    "cases": {"quick": 400, "thorough": 6000},
+    "gen_profiles": ["C15", "C03W", "C16T", "C17"],
+    "cases": {"quick": 1400, "thorough": 16000},
     "compare": "set",
     "impl_only": True,
     "bad_marker": r"UB-SITE|<no-output",
@@ -43,7 +96,10 @@ CFG = {
              "then pushed through ~600 public API calls (api_sweep: queries, iterators with advance_to/advance_back_to, mutators "
              "on clones, all binary operator forms against a second operand, relations, multi-ops, serialization, from_lsb0_bytes) "
              "each under catch_unwind, in both build profiles, with the cfg(roaring_verif) bounds recorder in front of all 16 "
-             "unchecked accesses. Violation = a recorder fired (index >= len) or the harness process died. Non-trivial = the "
+             "unchecked accesses; in addition the iterator scripts of profiles C03W (cursor windows of one bitset chunk: every pair of "
+             "advance_to / advance_back_to targets incl. crossing cursors) and C16T (extreme targets, all four iterator types) run on "
+             "well-formed values, and the bit-slice imports of profile C17 (all byte offsets, i.e. all alignments of the chunk copies), "
+             "with the recorders armed (the run loop checks them after EVERY op). Violation = a recorder fired (index >= len) or the harness process died. Non-trivial = the "
              "decoder accepted the corrupted stream (an ill-formed value exists) or a sweep call panicked; distinct by SHA-1 of ops"),
     "targets": {
         "unchecked decoder accepted a corrupted stream": r"^deser_raw .*=> ok",
@@ -53,7 +109,8 @@ CFG = {
         "inter_raw err": r"^inter_raw .*=> err",
     },
     "gaps": ["aliasing, provenance, uninitialised memory, data races and unsafe code inside std/bytemuck/byteorder are outside the model",
-             "theorems cover the index arithmetic of the unsafe sites in the model; the Rust sites are tied by the recorders on generated inputs only"],
+             "theorems cover the index arithmetic of the unsafe sites in the model; the Rust sites are tied by the recorders on generated inputs only",
+             "fidelity audit of the store kernels and 32-bit iterators (notes/fidelity-stores-iter32.md): the index-level loops of Unsafe.lean / UnsafeIter.lean are the mirrored twins of the list-level model the correspondence runs; all ties are unconditional equalities (C15_merge_eq_model, C15_retain_eq_model, C15_biter_erasure) and the last missing one — retain with the stateless closures of ArrayStore &= / -= &BitmapStore = List.filter — is added (C15_retain_filter_eq_model)"],
     "level_text": "Partial by nature. Theorems (Lean 4): for arbitrary, also ill-formed, model states the index computed at each unchecked access is in bounds. Tie: cfg(roaring_verif) recorders assert index < len immediately before each of the 16 unchecked accesses while the whole public API runs over ill-formed values from the unchecked decoders; per-site (accesses, max index, min slack) are reported in the evidence.",
     "level_note": "A Lean theorem cannot exhibit undefined behaviour; what is proved is the bounds logic. Not covered: aliasing/provenance/uninitialised memory/data races; unsafe inside dependencies; inputs not generated. Hook = add-only cfg(roaring_verif) code in /repo (MANIFEST.hooks).",
     "technique": "Lean 4 theorems on index bounds of every unsafe site for arbitrary states + guarded bounds recorders exercised by API sweeps over ill-formed values (correspondence is implementation-only for this property)",
